@@ -1,7 +1,9 @@
 (* Proofs/SxgRoundtripVerifyEx.v - C02 (Verify half): concrete runs with SHA-256
-   and the toy oracles of SxgVerifyExample.v; witnesses showing that the side
-   conditions of [verify_canon_invariant] and [signed_exchange_verifies] are
-   needed; the theorems instantiated (their hypotheses are satisfiable). *)
+   and the toy oracles of SxgVerifyExample.v; the theorems instantiated (their
+   hypotheses are satisfiable); and what became of the witnesses of the two Go
+   defects this development found (F19: headerValue matched the map key
+   exactly; F20: MiEncodePayload appended to an existing empty Digest value),
+   now repaired: the same exchanges as positive examples. *)
 From Coq Require Import Lia.
 From WP Require Import Base.Prelude Base.Base64 Base.Sha256.
 From WP Require Import Model.Cbor Model.Http Model.Url Model.Mice Model.StructHdr Model.CertChain
@@ -46,8 +48,6 @@ Definition odd1 : exchange :=
                   toy_date toy_expires).
 
 Example odd_side_conditions :
-  lookup_stable odd3 = true /\ lookup_stable odd2 = true /\ lookup_stable odd1 = true /\
-  canonical_keys (e_resph odd3) = false /\             (* the weaker condition is the one that holds *)
   readable odd3 = true /\ readable odd2 = true /\ readable odd1 = true.
 Proof. vm_compute. repeat split. Qed.
 
@@ -84,59 +84,69 @@ Proof. vm_compute. repeat split. Qed.
 (* the theorem, instantiated *)
 Example odd3_invariant_inst : forall tsec tnsec,
   V (canon_exchange odd3) tsec tnsec = V odd3 tsec tnsec.
-Proof. intros. apply verify_canon_invariant. vm_compute. reflexivity. Qed.
+Proof. intros. apply verify_canon_invariant. Qed.
 
-(* ---- [lookup_stable] is needed: a looked-up name under a non-canonical map key -------------- *)
-(* (1) Content-Type stored under the key "content-type": signed as content-type,
-       but Header.Get("Content-Type") misses it: rejected in memory, accepted
-       once written and read back. *)
+(* ---- a looked-up name under a non-canonical map key (the witnesses of F19) --------------------- *)
+(* Before the repair of headerValue these two exchanges changed verdict across
+   Write / ReadExchange (the lookup matched the map key exactly).  Now: *)
+(* (1) Content-Type stored under the key "content-type": found, in memory too. *)
 Definition low_ct : exchange :=
   Eval vm_compute in
     get (toy_sign (plain V1b3 200 [(s2b "Cache-Control", s2b "max-age=600")]
                          [(s2b "content-type", [s2b "text/html"])]) toy_date toy_expires).
-(* (2) "cache-control: no-store" under a non-canonical key: IsCacheable does not
-       see it: accepted in memory, rejected once written and read back. *)
+(* (2) "cache-control: no-store" under a non-canonical key: IsCacheable sees it. *)
 Definition low_cc : exchange :=
   Eval vm_compute in
     get (toy_sign (plain V1b3 200 [(s2b "Content-Type", s2b "text/html")]
                          [(s2b "cache-control", [s2b "no-store"])]) toy_date toy_expires).
 
-Theorem verify_canon_invariant_needs_lookup_stable :
-  exists e1 e2 tsec tnsec,
-    (* everything else one could ask for holds *)
-    readable e1 = true /\ readable e2 = true /\
-    (exists bs, write e1 = Ok bs) /\ (exists bs, write e2 = Ok bs) /\
-    e_taint e1 = false /\ e_taint e2 = false /\
-    lookup_stable e1 = false /\ lookup_stable e2 = false /\
-    (* rejected in memory, accepted after the round trip *)
-    V e1 tsec tnsec = Invalid /\ V (canon_exchange e1) tsec tnsec = Valid toy_body /\
-    read_back e1 = canon_exchange e1 /\
-    (* accepted in memory, rejected after the round trip *)
-    V e2 tsec tnsec = Valid toy_body /\ V (canon_exchange e2) tsec tnsec = Invalid /\
-    read_back e2 = canon_exchange e2.
-Proof.
-  exists low_ct, low_cc, toy_date, 0%Z.
-  split; [vm_compute; reflexivity|]. split; [vm_compute; reflexivity|].
-  split; [destruct (write low_ct) as [bs| | |] eqn:E; try (vm_compute in E; discriminate E); eauto|].
-  split; [destruct (write low_cc) as [bs| | |] eqn:E; try (vm_compute in E; discriminate E); eauto|].
-  repeat split; vm_compute; reflexivity.
-Qed.
+(* low_ct: Valid (original payload) in memory, canonicalised, and read back;
+   low_cc: Invalid (no-store) in all three *)
+Example low_ct_low_cc_same_verdict :
+  readable low_ct = true /\ readable low_cc = true /\
+  read_back low_ct = canon_exchange low_ct /\ read_back low_cc = canon_exchange low_cc /\
+  V low_ct toy_date 0 = Valid toy_body /\
+  V (canon_exchange low_ct) toy_date 0 = Valid toy_body /\
+  V (read_back low_ct) toy_date 0 = Valid toy_body /\
+  V low_cc toy_date 0 = Invalid /\
+  V (canon_exchange low_cc) toy_date 0 = Invalid /\
+  V (read_back low_cc) toy_date 0 = Invalid.
+Proof. vm_compute. repeat split. Qed.
 
-(* ---- the digest header must be absent before MiEncodePayload ---------------------------------- *)
-(* AddPayloadIntegrity refuses only a non-empty Get("Digest"); with an empty first
-   value it appends: the signed, written exchange never verifies *)
-Definition empty_digest : exchange :=
-  Eval vm_compute in
-    get (toy_sign (plain V1b3 200 std_headers [(s2b "Digest", [[]])]) toy_date toy_expires).
-Example signed_exchange_needs_absent_digest :
-  (exists e, toy_sign (plain V1b3 200 std_headers [(s2b "Digest", [[]])]) toy_date toy_expires = Ok e) /\
-  hdr_values (e_resph (plain V1b3 200 std_headers [(s2b "Digest", [[]])])) (s2b "Digest") = [[]] /\
-  policy_ok toy_status empty_digest toy_validity toy_date toy_expires 16 = true /\
-  V empty_digest toy_date 0 = Invalid /\ V (read_back empty_digest) toy_date 0 = Invalid.
+Example low_ct_low_cc_invariant_inst : forall tsec tnsec,
+  V (canon_exchange low_ct) tsec tnsec = V low_ct tsec tnsec /\
+  V (canon_exchange low_cc) tsec tnsec = V low_cc tsec tnsec.
+Proof. intros. split; apply verify_canon_invariant. Qed.
+
+(* two keys equal up to letter case: nothing can be signed or written, Invalid on
+   both sides whatever the lookups would say *)
+Definition twin_ct : exchange :=
+  with_resph ex3 (e_resph ex3 ++ [(s2b "content-TYPE", [s2b "text/plain"])]).
+Example twin_keys_invalid :
+  write twin_ct = Err /\ V twin_ct toy_date 0 = Invalid /\ V (canon_exchange twin_ct) toy_date 0 = Invalid.
+Proof. vm_compute. repeat split. Qed.
+
+(* ---- an existing digest header (the witness of F20) ---------------------------------------------- *)
+(* MiEncodePayload now refuses any existing value under the canonical key, an
+   empty one included (before: it appended, and the signed exchange never verified) *)
+Example mi_encode_refuses_existing_digest :
+  mi_encode_payload sha256 (plain V1b3 200 std_headers [(s2b "Digest", [[]])]) 16 = Err /\
+  toy_sign (plain V1b3 200 std_headers [(s2b "Digest", [[]])]) toy_date toy_expires = Err /\
+  mi_encode_payload sha256 (plain V1b1 200 std_headers [(s2b "Mi-Draft2", [[]; []])]) 16 = Err.
+Proof. vm_compute. repeat split. Qed.
+(* a differently spelled key is not seen by MiEncodePayload (Header.Values), but then
+   the map has two names equal up to letter case and cannot be signed: the
+   premise signed_message .. = Ok of [signed_exchange_verifies] excludes it *)
+Example lowercase_digest_cannot_be_signed :
+  let e0 := plain V1b3 200 std_headers [(s2b "digest", [s2b "x"])] in
+  (exists e1, mi_encode_payload sha256 e0 16 = Ok e1 /\
+     signed_message e1 (Some (sha256 toy_cert)) toy_validity toy_date toy_expires = Err) /\
+  toy_sign e0 toy_date toy_expires = Err.
 Proof.
-  split.
-  { destruct (toy_sign _ _ _) as [e| | |] eqn:E; try (vm_compute in E; discriminate E). eauto. }
-  vm_compute. repeat split.
+  cbv zeta. split; [|vm_compute; reflexivity].
+  destruct (mi_encode_payload sha256 _ 16) as [e1| | |] eqn:E; try (vm_compute in E; discriminate E).
+  exists e1. split; [reflexivity|].
+  vm_compute in E. injection E as <-. vm_compute. reflexivity.
 Qed.
 
 (* ---- [signed_exchange_verifies] instantiated: for EVERY instant of the window --------------- *)
@@ -207,4 +217,30 @@ Example sha_signed_roundtrip :
   valid_body (V (read_back ex2) toy_expires 0) = true /\
   valid_body (V (read_back ex1) toy_expires 0) = true /\
   V (read_back ex1) toy_expires 1 = Invalid.
+Proof. vm_compute. repeat split. Qed.
+
+(* ---- b3: the request part is not stored (by design of the format) -------------------------------- *)
+(* a b3 exchange that carries, in memory, a stateful request header: Verify
+   refuses it (verify_headers looks at e_reqh whatever the version; the signed
+   message of b3 does not cover request headers), Write stores no request part,
+   and what ReadExchange returns is accepted *)
+Definition b3_auth : exchange := with_reqh ex3 [(s2b "Authorization", [s2b "Basic eDp5"])].
+Theorem b3_stateful_request_header_verdict_flips :
+  e_ver b3_auth = V1b3 /\ (exists bs, write b3_auth = Ok bs) /\
+  readable (b3_norm b3_auth) = true /\ readable b3_auth = false /\
+  read_back b3_auth = canon_exchange (b3_norm b3_auth) /\
+  e_reqh (read_back b3_auth) = [] /\
+  V b3_auth toy_date 0 = Invalid /\
+  V (read_back b3_auth) toy_date 0 = Valid toy_body.
+Proof.
+  split; [reflexivity|].
+  split; [destruct (write b3_auth) as [bs| | |] eqn:E; try (vm_compute in E; discriminate E); eauto|].
+  repeat split; vm_compute; reflexivity.
+Qed.
+(* same with a method other than GET: the verdict does not change (b3 ignores the
+   method) but the method comes back as GET *)
+Definition b3_post : exchange := with_method ex3 (s2b "POST").
+Example b3_method_comes_back_get :
+  e_method (read_back b3_post) = s2b "GET" /\ read_back b3_post = canon_exchange (b3_norm b3_post) /\
+  V b3_post toy_date 0 = Valid toy_body /\ V (read_back b3_post) toy_date 0 = Valid toy_body.
 Proof. vm_compute. repeat split. Qed.
